@@ -46,7 +46,7 @@ FR = {
              "mp": b'--BB\r\nContent-Disposition: form-data; name="f"\r\n\r\nv\r\n', "mpend": b"--BB--\r\n", "mpnocolon": b"--BB\r\nContent-Disposition\r\n\r\nv\r\n",
              "mpnodisp": b"--BB\r\nX-Other: 1\r\n\r\nv\r\n", "mpnoname": b"--BB\r\nContent-Disposition: form-data\r\n\r\nv\r\n",
              "mpfileonly": b'--BB\r\nContent-Disposition: attachment; filename="x.txt"\r\n\r\nv\r\n',
-             "mpempty": b"--BB\r\n\r\nv\r\n", "mpcont": b'--BB\r\nContent-Disposition: form-data;\r\n name="f"\r\n\r\nv\r\n', "mphi": b'--BB\r\nContent-Disposition: form-data; name="\xff"; filename="\xfe"\r\n\r\n\xff\r\n', "big": BIG.encode()},
+             "mpempty": b"--BB\r\n\r\nv\r\n", "mpcont": b'--BB\r\nContent-Disposition: form-data;\r\n name="f"\r\n\r\nv\r\n', "mphi": b'--BB\r\nContent-Disposition: form-data; name="\xff"; filename="\xfe"\r\n\r\n\xff\r\n', "big": BIG.encode(), "manyamp": b"a=1&" * 1500, "ampamp": b"&" * 2500, "manysemi": b"a=1;" * 1500},
 }
 ENTRIES = {
     "path": ["url", "router", "files", "pages", "mount"], "query": ["query_params", "url"], "host": ["url", "hosts"], "cookie": ["cookies"],
